@@ -198,12 +198,13 @@ def run_program(job):
     -> picklable result dict"""
     entry, tier = job["entry"], job["tier"]
     rng = random.Random(f"{job['seed']}:c14p:{entry['name']}")
-    res = {"name": entry["name"], "findings": [], "stats": {}, "snaps": [], "errors": []}
+    res = {"name": entry["name"], "findings": [], "stats": {}, "snaps": [], "errors": [], "inputs": [], "ref_runtime": None}
     stats = res["stats"]
     t0 = time.time()
     try:
         ref_cfg = Config(False, "none", EVM)
-        ref_out = compile_src(entry["src"], ref_cfg, formats=("bytecode", "abi", "layout"))
+        ref_out = compile_src(entry["src"], ref_cfg, formats=("bytecode", "bytecode_runtime", "abi", "layout"))
+        res["ref_runtime"] = ref_out["bytecode_runtime"]
         abi = ref_out["abi"]
         d = Deployed(entry, ref_out["bytecode"], abi)
         if d.addr is None:
@@ -212,6 +213,13 @@ def run_program(job):
         per_fn, n_random = (6, 10) if tier == "quick" else (14, 40)
         plan = make_plan(abi, entry["src"], rng, d.addrs(), per_fn, n_random)
         ref = observe(entry, ref_out, abi, plan)
+        # inputs for stage 2 (single calls on the runtime function): one call per function first, then plan order
+        seen_fn, first, rest = set(), [], []
+        for c in plan:
+            (rest if c["name"] in seen_fn else first).append(c)
+            seen_fn.add(c["name"])
+        res["inputs"] = [{"fn": c["name"], "args": c.get("args"), "data": c["data"].hex(), "value": c["value"], "sender": c["sender"]}
+                         for c in (first + rest)[: job.get("n_inputs", 10)]]
         stats["calls"] = len(plan)
         stats["ref_ok_calls"] = sum(1 for r in ref["results"] if r[0])
         stats["compiles"] = 1
